@@ -56,6 +56,9 @@ type Runner struct {
 	created map[string]cfgArgs // per index: arguments of its latest successful VCreate
 	Minted  map[string]string  // model id -> engine-minted id (VEvolve)
 	LastErr string             // error text of the last failed call
+	// ExtraHook, when set, receives every verif hook event raised while an operation runs
+	// (used to take crash images at hook points)
+	ExtraHook func(name string, kv []any)
 	clock     int
 	clockReal map[int]int64
 }
@@ -66,6 +69,33 @@ func NewRunner(p Profile, dir string) (*Runner, error) {
 		return nil, err
 	}
 	return r, nil
+}
+
+// CloneAt opens a second runner on another data directory (a crash image of r's directory),
+// carrying over what the harness knows about r's indexes. It returns the Open error, if any.
+func (r *Runner) CloneAt(dir string) (*Runner, error) {
+	c := &Runner{P: r.P, Dir: dir, created: map[string]cfgArgs{}, Minted: map[string]string{}, clockReal: map[int]int64{}}
+	for k, v := range r.created {
+		c.created[k] = v
+	}
+	for k, v := range r.Minted {
+		c.Minted[k] = v
+	}
+	if err := c.open(); err != nil {
+		return nil, err
+	}
+	return c, nil
+}
+
+// Reopen closes and reopens the engine on the same directory.
+func (r *Runner) Reopen() error {
+	if r.E != nil {
+		if err := r.E.Close(); err != nil {
+			return err
+		}
+		r.E = nil
+	}
+	return r.open()
 }
 
 func (r *Runner) opts() engine.Options {
@@ -167,7 +197,7 @@ func (r *Runner) vecToken(got []float32, metric, prec string) string {
 	case "float16":
 		tol = 2e-3
 	case "int8":
-		tol = 0.2 // fidelity of int8 is C18's subject; here only the identity of the record
+		tol = 0.6 // clipping beyond the trained range is allowed (C18); fidelity of int8 is C18's subject; here only the identity of the record
 	}
 	if bestD > tol {
 		return fmt.Sprintf("?(%v)", got)
@@ -389,6 +419,10 @@ func optStr(m map[string]any, k string) string {
 // It also keeps the model's logical clock (advanced by VLink, VUnlink and successful VDelete)
 // aligned with wall-clock instants, so that a model cutoff can be refined into a real one.
 func (r *Runner) Exec(op map[string]any) (string, error) {
+	if r.ExtraHook != nil {
+		verifhook.Set(verifhook.Handler(r.ExtraHook))
+		defer verifhook.Set(nil)
+	}
 	out, err := r.exec(op)
 	if err == nil {
 		switch str(op, "op") {
@@ -464,6 +498,9 @@ func (r *Runner) exec(op map[string]any) (string, error) {
 		tick()
 		done := make(chan struct{}, 4)
 		verifhook.Set(func(name string, kv []any) {
+			if r.ExtraHook != nil {
+				r.ExtraHook(name, kv)
+			}
 			if name == "cascade.done" {
 				done <- struct{}{}
 			}
@@ -486,6 +523,9 @@ func (r *Runner) exec(op map[string]any) (string, error) {
 		tick()
 		gate := make(chan struct{})
 		verifhook.Set(func(name string, kv []any) {
+			if r.ExtraHook != nil {
+				r.ExtraHook(name, kv)
+			}
 			if name == "cascade.start" {
 				<-gate
 			}
